@@ -250,12 +250,10 @@ def worker_und(task):
         variants = [(A, ident)]
         if dtype is float:
             for pi, pal in enumerate(PALETTES):
-                if n >= 6 and pi == 0:
-                    continue                      # n = 6 (thorough): binary and the second palette only
                 variants.append((G.weight_by_position(A, palette=pal, symmetric=True), ident + ('w%d' % pi,)))
         for W, idn in variants:
             check_mfpt(acc, W, idn)
-            check_pagerank(acc, W, idn, _fs(n, n < 6))
+            check_pagerank(acc, W, idn, _fs(n, True))
             check_eigenvector(acc, W, idn)
             if W is not A:
                 check_subgraph(acc, W, idn)
@@ -370,7 +368,7 @@ def run_bounded(run, tier, seed):
     nD = 4
     run.bounded_part('undirected-exhaustive',
                      bounds={'graphs': 'all labelled simple undirected graphs n = 2..%d: findwalks and subgraph_centrality on all of them; the connected ones, binary (float; int for n <= 4) and with '
-                                       'position-dependent weights from %r and %r (n = 6: the second palette only, falff None and (1..n) only), for mean_first_passage_time, diffusion_efficiency, pagerank_centrality, eigenvector_centrality_und '
+                                       'position-dependent weights from %r and %r, for mean_first_passage_time, diffusion_efficiency, pagerank_centrality, eigenvector_centrality_und '
                                        '(and again subgraph_centrality / findwalks)' % (nU, list(PALETTES[0]), list(PALETTES[1])),
                              'd': [.5, .85], 'falff': 'None, (1..n), (1,0,..,0)', 'tolerance': TOL},
                      rule='one case = (measure, network, parameters); non-trivial: n >= 3 (walk measures), repeated eigenvalue (subgraph centrality), non-regular graph (eigenvector centrality), '
